@@ -60,3 +60,16 @@ package storage
 //@   ensures [C03.full_is_body_prefix] len(data) >= 48 ==> 32 + len(result) <= len(data) - 16 && result == data[32 : 32 + len(result)]
 //@   ensures [C04.full_maxbytes] len(data) >= 48 && maxBytes > 0 && len(data) - 48 >= int(maxBytes) ==> len(result) == int(maxBytes)
 //@   ensures [C04.full_whole] len(data) >= 48 && (maxBytes <= 0 || len(data) - 48 < int(maxBytes)) ==> len(result) == len(data) - 48
+
+// ---- point-in-time restore scanner (C34 no-crash / bounded allocation, C08) ----
+//@ func scanRecord
+//@   alloc_bound brLen(reader)
+//@ func truncateRecordBatchToTimestamp
+//@   alloc_bound len(batch)
+//@   loop 1 invariant 0 <= keptBytes && keptBytes <= len(batch) - 61 && brLen(reader) == len(batch) - 61 && len(batch) >= 61 && recordDataLen == len(batch) - 61
+//@ func collectRecoverableBatches
+//@   alloc_bound len(segmentBytes)
+//@   loop 1 invariant 0 <= offset && offset <= len(body) && len(body) == len(segmentBytes) - 48
+//@ func parseIndexMetadata
+//@   alloc_bound len(data)
+//@   loop 1 invariant 0 <= i && i <= count && len(entries) == int(count)
